@@ -78,18 +78,35 @@ def binInit (p : Publish) (id : UInt8) : Bytes :=
   if id = 0x08 then p.responseTopic else if id = 0x09 then p.correlationData
   else if id = 0x03 then p.contentType else []
 
+/-! `UnmarshalBinary` in three stages, each a run of statements of the Go function acting on
+the cursor and the packet. -/
+
+/-- `get(&p.topicName); if v := p.QoS(); v == 1 || v == 2 { get(&p.packetID) }` -/
+def readHead (p : Publish) (b : Buf) : Buf × Publish :=
+  let r1 := b.get (decBin p.topicName) p.topicName
+  let p := { p with topicName := r1.2 }
+  if p.hasPacketID then
+    let r2 := r1.1.get decU16 p.packetID
+    (r2.1, { p with packetID := r2.2 })
+  else (r1.1, p)
+
+/-- `buf.getAny(p.propertyMap(), p.appendUserProperty)` -/
+def readProps (p : Publish) (b : Buf) : Buf × Publish :=
+  let r := b.getAny table (lastBin p.binInit)
+  (r.1, r.2.foldl applyOcc p)
+
+/-- `if len(data) > buf.i { get(&p.payload) }` -/
+def readPayload (p : Publish) (b : Buf) : Buf × Publish :=
+  if b.rest ≠ [] then
+    let r := b.get decRaw p.payload
+    (r.1, { p with payload := r.2 })
+  else (b, p)
+
 def unmarshal (p : Publish) (data : Bytes) : Publish × St :=
-  let b : Buf := { rest := data }
-  let (b, topic) := b.get (decBin p.topicName) p.topicName
-  let p := { p with topicName := topic }
-  let (b, pid) := if p.hasPacketID then b.get decU16 p.packetID else (b, p.packetID)
-  let p := { p with packetID := pid }
-  let (b, occs) := b.getAny table (lastBin p.binInit)
-  let p := occs.foldl applyOcc p
-  if b.rest ≠ [] then                                    -- `if len(data) > buf.i`
-    let (b, pl) := b.get decRaw p.payload
-    ({ p with payload := pl }, b.st)
-  else (p, b.st)
+  let s1 := p.readHead { rest := data }
+  let s2 := s1.2.readProps s1.1
+  let s3 := s2.2.readPayload s2.1
+  (s3.2, s3.1.st)
 
 def view (p : Publish) : View :=
   [("ContentType", .s p.contentType), ("CorrelationData", .s p.correlationData),
